@@ -1492,13 +1492,13 @@ example : isOk (validate .oci { sampleDoc with statements := [{ sampleStmt with 
 example : isOk (validate .oci { sampleDoc with statements :=
     [{ sampleStmt with scopes := ["my_registry/app".toList] }] }) = false := by decide
 
-def sampleInput : Input := { kind := "oci", doc := sampleDoc, other := some badBlob, rx := "", text := [] }
+def sampleInput : Input := { kind := "oci", doc := sampleDoc, other := some badBlob, before := none, beforeBad := none, rx := "", text := [] }
 
 example : Holds sampleInput (run sampleInput) = true := model_holds _
 example : (run sampleInput).okStruct = true := by decide
 /-- `Holds` is false of an implementation that rejects the well-formed document … -/
 example : Holds sampleInput
-    { okStruct := false, okRepeat := [false, false, false], okJson := false, okVerifier := false,
+    { okStruct := false, okRepeat := List.replicate historyCount false, okJson := false, okVerifier := false,
       okPair := false, okNew := false, okNewWithOptions := false, levels := [] } = false := by
   decide
 /-- the well-formed OCI document is refused next to an ill-formed blob document (global skip) … -/
@@ -1506,7 +1506,7 @@ example : (run sampleInput).okVerifier = true ∧ (run sampleInput).okPair = fal
 /-- … and `Holds` is false of a constructor that looks at the first document only -/
 example : Holds sampleInput { (run sampleInput) with okPair := true } = false := by decide
 /-- … or of a Validate() that remembers an earlier answer for the same object -/
-example : Holds sampleInput { (run sampleInput) with okRepeat := [true, true, false] } = false := by decide
+example : Holds sampleInput { (run sampleInput) with okRepeat := (List.replicate (historyCount - 1) true) ++ [false] } = false := by decide
 /-- no document: no verifier -/
 example : Holds { sampleInput with kind := "ctor", rx := "no-documents" }
     { (run sampleInput) with okVerifier := true } = false := by decide
